@@ -146,6 +146,24 @@ def run(rep, tier, driver):
     # the Lean Model of find_oxygen / root_atom_id / __check_root_id (the choice of the linking hetero atom) against monomer.py
     import oxyx
     oxyx.run(rep, tier, driver, [c["iupac"] for c in cases if c.get("size", 0) <= 8] + ["Man(a1-6)Glc6P", "Man(a1-6)Glc6EtN", "Gal(b1-2)RhaNPro", "Kdo(a2-6)GlcN4P", "Gal(b1-3)GlcN2S"])
+    # the Lean Model of Merger.mark / Merger.merge_int (which linkage marks which carbon with which marker pair, which label gives
+    # which residue its anomer, where each child's SMILES starts, ring offsets) against the calls merger.py issues
+    import planx
+    planx.run(rep, tier, driver, PLAN_FIXED + [c["iupac"] for c in cases])
+
+
+# directed inputs for the binding plan: N- and O-linked siblings in every written order, four and five children, labels without a
+# parent position / without anomer, two-digit positions, ketose children, nested branches, parenthesis-free notations
+PLAN_FIXED = [
+    "Fuc(a1-2)[Gal(b1-3)]GlcNAc", "Gal(b1-3)[Fuc(a1-2)]GlcNAc", "Man(a1-2)[Gal(b1-3)][Fuc(a1-4)]GlcNAc", "Gal(b1-3)[Man(a1-2)][Fuc(a1-4)]GlcNAc",
+    "Fuc(a1-4)[Gal(b1-3)][Man(a1-2)]GlcN", "Gal(b1-4)[Glc(a1-5)]Neu", "Glc(a1-5)[Gal(b1-4)]Neu", "Glc(a1-5)[Gal(b1-4)][Man(a1-8)]Neu(a2-3)Gal",
+    "Man(a1-2)[Man(a1-3)][Man(a1-4)][Man(a1-6)]Glc", "Man(a1-2)[Man(a1-3)][Man(a1-4)][Man(a1-6)]Glc(b1-4)Glc",
+    "Man(a1-2)[Man(a1-3)][Man(a1-4)][Man(a1-6)][Man(a1-1)]Glc", "Man(a1-?)Glc", "Man(?1-4)Glc", "Man(1-4)Glc", "Man(a1-4)[Gal(b1-?)]Glc",
+    "Neu5Ac(a2-3)Gal(b1-4)Glc", "Neu5Ac(a2-8)Neu5Ac(a2-3)Gal", "Fruf(b2-1)Glc", "Kdo(a2-4)Kdo(a2-6)GlcN", "Neu5Gc(a2-11)Neu5Gc",
+    "Mana1-3[Mana1-6]Manb1-4GlcNAc", "Mana3[Mana6]Manb4GlcNAc", "Man(a1-3)[Gal(b1-4)[Fuc(a1-3)]GlcNAc(b1-2)Man(a1-6)]Man(b1-4)GlcNAc b",
+    "Gal(b1-4)[Fuc(a1-3)]GlcNAc(b1-2)[Gal(b1-4)GlcNAc(b1-4)]Man(a1-3)[Man(a1-6)]Man(b1-4)GlcNAc(b1-4)[Fuc(a1-6)]GlcNAc",
+    "Glc(a1-4)Glc-ol", "Man(a1-4)Glca", "Man(a1-4)Glc b", "Gal(b1-4)GlcNAc(b1-2)Man a", "Man(a1-6)[Man(a1-3)]Man(a1-6)[Man(a1-3)]Man",
+]
 
 
 def merge_correspondence(rep, tier, driver, cases, outs):
